@@ -1,3 +1,5 @@
+// unit build: the compile loop `build1` verified against its provable contract (`State::build1#loop`); every other
+// function of unit compile appears here in its ASSUMED rendering (it is verified in unit compile).
 #![feature(allocator_api)]
 #![allow(unused_imports, dead_code, unused_variables, unused_mut, unused_assignments, non_camel_case_types)]
 use vstd::prelude::*;
@@ -32,36 +34,36 @@ impl RelativeJump {
 impl State {
 //@use state.fns State::code_origin assumed
 //@use state.fns State::backpatch assumed
-//@use compile.fns State::code_emit
-//@use compile.fns State::backpatch_jump
-//@use compile.fns State::push_flow
-//@use compile.fns State::pop_flow
-//@use compile.fns State::has_pending_flow
-//@use compile.fns State::context_open
-//@use compile.fns State::build_mark
-//@use compile.fns State::build_abort
-//@use compile.fns State::next_token
-//@use compile.fns State::build1
-//@use compile.fns State::clear_last_error
-//@use compile.fns State::build0
-//@use compile.fns State::intern_source
+//@use compile.fns State::code_emit assumed
+//@use compile.fns State::backpatch_jump assumed
+//@use compile.fns State::push_flow assumed
+//@use compile.fns State::pop_flow assumed
+//@use compile.fns State::has_pending_flow assumed
+//@use compile.fns State::context_open assumed
+//@use compile.fns State::build_mark assumed
+//@use compile.fns State::build_abort assumed
+//@use compile.fns State::next_token assumed
+//@use compile.fns State::build1#loop
+//@use compile.fns State::clear_last_error assumed
+//@use compile.fns State::build0 assumed
+//@use compile.fns State::intern_source assumed
 //@use state.fns State::load_value_opcode assumed
 //@use state.fns State::is_recording assumed
 //@use state.fns State::add_reverse_step assumed
 //@use state.fns State::pop_data assumed
-//@use compile.fns State::code_emit_value
-//@use compile.fns State::run
-//@use compile.fns State::context_close
-//@use compile.fns State::build_from_source
-//@use compile.fns State::build_from_file
-//@use compile.fns State::dict_insert
-//@use compile.fns State::dict_key
-//@use compile.fns State::dict_entry
-//@use compile.fns State::dict_pos
-//@use compile.fns State::run_immediate
-//@use compile.fns State::build_word
-//@use compile.fns State::next_name
-//@use compile.fns State::top_function_flow
+//@use compile.fns State::code_emit_value assumed
+//@use compile.fns State::run assumed
+//@use compile.fns State::context_close assumed
+//@use compile.fns State::build_from_source assumed
+//@use compile.fns State::build_from_file assumed
+//@use compile.fns State::dict_insert assumed
+//@use compile.fns State::dict_key assumed
+//@use compile.fns State::dict_entry assumed
+//@use compile.fns State::dict_pos assumed
+//@use compile.fns State::run_immediate assumed
+//@use compile.fns State::build_word assumed
+//@use compile.fns State::next_name assumed
+//@use compile.fns State::top_function_flow assumed
 //@use state.fns State::alloc_heap assumed
 //@use state.fns State::check_heap_limit assumed
 }
@@ -71,32 +73,32 @@ impl State {
 fn verif_read_source_file(path: &Xstr) -> Xresult1<String> { unimplemented!() }
 
 
-//@use compile.fns ::take_first_cond_flow
-//@use compile.fns ::jump_offset
-//@use compile.fns ::core_word_if
-//@use compile.fns ::core_word_then
-//@use compile.fns ::core_word_else
-//@use compile.fns ::case_word
-//@use compile.fns ::of_word
-//@use compile.fns ::endof_word
-//@use compile.fns ::core_word_begin
-//@use compile.fns ::core_word_until
-//@use compile.fns ::core_word_while
-//@use compile.fns ::core_word_do
-//@use compile.fns ::core_word_break
-//@use compile.fns ::endcase_word
-//@use compile.fns ::core_word_repeat
-//@use compile.fns ::core_word_loop
-//@use compile.fns ::build_global_variable
-//@use compile.fns ::build_local_variable
-//@use compile.fns ::core_word_def_local
-//@use compile.fns ::core_word_variable
-//@use compile.fns ::core_word_setvar
-//@use compile.fns ::core_word_nil
-//@use compile.fns ::core_word_def_begin_named
-//@use compile.fns ::core_word_nested_begin
-//@use compile.fns ::core_word_nested_end
-//@use compile.fns ::core_word_def_end
+//@use compile.fns ::take_first_cond_flow assumed
+//@use compile.fns ::jump_offset assumed
+//@use compile.fns ::core_word_if assumed
+//@use compile.fns ::core_word_then assumed
+//@use compile.fns ::core_word_else assumed
+//@use compile.fns ::case_word assumed
+//@use compile.fns ::of_word assumed
+//@use compile.fns ::endof_word assumed
+//@use compile.fns ::core_word_begin assumed
+//@use compile.fns ::core_word_until assumed
+//@use compile.fns ::core_word_while assumed
+//@use compile.fns ::core_word_do assumed
+//@use compile.fns ::core_word_break assumed
+//@use compile.fns ::endcase_word assumed
+//@use compile.fns ::core_word_repeat assumed
+//@use compile.fns ::core_word_loop assumed
+//@use compile.fns ::build_global_variable assumed
+//@use compile.fns ::build_local_variable assumed
+//@use compile.fns ::core_word_def_local assumed
+//@use compile.fns ::core_word_variable assumed
+//@use compile.fns ::core_word_setvar assumed
+//@use compile.fns ::core_word_nil assumed
+//@use compile.fns ::core_word_def_begin_named assumed
+//@use compile.fns ::core_word_nested_begin assumed
+//@use compile.fns ::core_word_nested_end assumed
+//@use compile.fns ::core_word_def_end assumed
 
 // Rext: Xerr::control_flow_error(flow) formats the open construct into a message: some Err
 #[verifier::external_body] fn verif_control_flow_error() -> (r: Xresult) ensures r is Err { unimplemented!() }
@@ -128,27 +130,6 @@ impl Xerr {
 }
 
 // bindings of the core word table (Rword)
-//@use corewords.fns State::load_core#w_if
-//@use corewords.fns State::load_core#w_else
-//@use corewords.fns State::load_core#w_then
-//@use corewords.fns State::load_core#w_case
-//@use corewords.fns State::load_core#w_of
-//@use corewords.fns State::load_core#w_endof
-//@use corewords.fns State::load_core#w_endcase
-//@use corewords.fns State::load_core#w_begin
-//@use corewords.fns State::load_core#w_while
-//@use corewords.fns State::load_core#w_until
-//@use corewords.fns State::load_core#w_break
-//@use corewords.fns State::load_core#w_repeat
-//@use corewords.fns State::load_core#w__x3b
-//@use corewords.fns State::load_core#w_local
-//@use corewords.fns State::load_core#w_var
-//@use corewords.fns State::load_core#w__bang
-//@use corewords.fns State::load_core#w_nil
-//@use corewords.fns State::load_core#w__x23_x28
-//@use corewords.fns State::load_core#w__x23_x29
-//@use corewords.fns State::load_core#w_do
-//@use corewords.fns State::load_core#w_loop
 
 } // verus!
 fn main() {}
